@@ -47,6 +47,8 @@ ASSUMPTIONS = [
     "`kind <= supported_kind()`",
     "Factory.Replanner is observed through _get_engine_class only: _get_engine adds a usage check on quality metrics "
     "for that mode which is outside this property",
+    "kinds with an explicit version older than 3 are not given to the built-in DurativeActionToProcesses compiler: its "
+    "declared resulting kind adds version-3 features, which the ProblemKind constructor rejects for such a kind",
     "pipeline cases use kinds without features deprecated at the kind's version: ProblemKind.__le__ strips such "
     "features from its operands in place, so a later stage would see a kind that depends on the earlier comparisons",
 ]
@@ -129,7 +131,8 @@ def dec_tr(e):
     if e[0] == "rules":
         return ("rules", set(e[1][1:]), set(e[2][1:]))
     if e[0] == "table":
-        return ("table", [(row[0], dec_kind(row[1]), dec_kind(row[2])) for row in e[1:]])
+        return ("table", [(row[0], dec_kind(row[1]), ("raises", row[2][1]) if row[2][0] == "raises" else dec_kind(row[2]))
+                          for row in e[1:]])
     raise ValueError("transformer")
 
 
@@ -208,6 +211,14 @@ def reflect(name, cls):
             "comps": [c.name for c in CompilationKind if hasattr(cls, "supports_compilation") and cls.supports_compilation(c)]}
 
 
+def tabulate(cls, kin, ck):
+    """one row of a built-in compiler's declared resulting kind (or the exception it raises)"""
+    try:
+        return kind_of(cls.resulting_problem_kind(mk(kin), CompilationKind[ck]))
+    except Exception as ex:
+        return ("raises", type(ex).__name__)
+
+
 _BASE = {}
 
 
@@ -247,8 +258,7 @@ def build(fac):
                 raise Stale(f"{n}.kind")
             if spec["tr"][0] == "table":
                 for ck, kin, kout in spec["tr"][1]:
-                    got = kind_of(cls.resulting_problem_kind(mk(kin), CompilationKind[ck]))
-                    if got != (set(kout[0]), kout[1]):
+                    if tabulate(cls, kin, ck) != kout:
                         raise Stale(f"{n}.resulting_problem_kind")
         else:
             cls = make_class(spec)
@@ -407,6 +417,8 @@ def oracle(payload):
             except Exception as e:
                 if none_qualifies:
                     return f"{what}: no engine qualifies but {type(e).__name__} is raised instead of the no-suitable-engine error"
+                if registered and well_shaped(r):
+                    return f"{what}: {type(e).__name__} is raised: neither an engine nor the no-suitable-engine error"
                 continue
             cls = res if isinstance(res, type) else type(res)
             if none_qualifies:
@@ -428,6 +440,8 @@ def oracle(payload):
         except Exception as e:
             if stage1 is False:
                 return f"pipeline: no compiler qualifies for the first stage but {type(e).__name__} is raised"
+            if registered:
+                return f"pipeline: {type(e).__name__} is raised: neither a pipeline nor the no-suitable-engine error"
             return None
         if stage1 is False:
             return "pipeline: a pipeline is returned although no compiler qualifies for the first stage"
@@ -531,7 +545,8 @@ def enc_tr(tr):
         return ["id"]
     if tr[0] == "rules":
         return ["rules", ["rem"] + sorted(tr[1]), ["add"] + sorted(tr[2])]
-    return ["table"] + [[ck, enc_kind(kin), enc_kind(kout)] for ck, kin, kout in tr[1]]
+    return ["table"] + [[ck, enc_kind(kin), list(kout) if kout[0] == "raises" else enc_kind(kout)]
+                        for ck, kin, kout in tr[1]]
 
 
 def enc_engine(e):
@@ -627,6 +642,8 @@ def pipe_case(rng, base, with_builtins):
         fs = set(["ACTION_BASED"] if rng.random() < 0.9 else []) | set(sub(rng, pool, 0.3))
         if rng.random() < 0.2:
             fs |= rand_feats(rng, allow_deprecated=False)
+        if "DURATIVE_ACTIONS_TO_PROCESSES" in cks and v is not None and v < 3:
+            v = rng.choice([None, LATEST_PROBLEM_KIND_VERSION])   # see ASSUMPTIONS
         kind = fit_version(rng, fs, v)
     else:
         chosen = []
@@ -645,8 +662,12 @@ def pipe_case(rng, base, with_builtins):
     if with_builtins and rng.random() < 0.3:
         chosen = [n for n in base["names"]]
         pref = list(base["default_pref"]) + [e["name"] for e in engines if rng.random() < 0.5]
+    return finish_pipe(base, engines, chosen, pref, kind, cks)
+
+
+def finish_pipe(base, engines, chosen, pref, kind, cks):
+    """tabulate the built-in compilers' declared resulting kinds on every kind a stage can see, and encode"""
     bi = {b: dict(base["records"][b], tr=("table", [])) for b in chosen}
-    # tabulate the built-in compilers' declared resulting kinds on every kind a stage can see
     f0 = Factory(Environment()) if bi else None
     level = [kind]
     for si, ck in enumerate(cks):
@@ -659,14 +680,11 @@ def pipe_case(rng, base, with_builtins):
                         nxt.append(out)
             for b, rec in bi.items():
                 if ck in rec["comps"]:
-                    try:
-                        out = kind_of(f0.engine(b).resulting_problem_kind(mk(k), CompilationKind[ck]))
-                    except Exception:
-                        continue
+                    out = tabulate(f0.engine(b), k, ck)
                     row = (ck, k, out)
                     if row not in rec["tr"][1]:
                         rec["tr"][1].append(row)
-                    if out not in nxt:
+                    if out[0] != "raises" and out not in nxt:
                         nxt.append(out)
         if len(nxt) > 10:
             cks = cks[:si + 1]
@@ -676,8 +694,25 @@ def pipe_case(rng, base, with_builtins):
     return ["pipe", enc_factory(all_engines, pref), enc_kind(kind), list(cks)]
 
 
+def builtin_sweep(base):
+    """deterministic: every built-in compiler on its own full supported kind, alone and followed by every other
+    built-in compilation kind, under the factory's default preference list (exercises each declared
+    resulting_problem_kind through the pipeline branch)"""
+    comp = [n for n in base["names"] if "compiler" in base["records"][n]["modes"]]
+    all_cks = sorted({c for n in comp for c in base["records"][n]["comps"]})
+    for n in comp:
+        rec = base["records"][n]
+        for ck in rec["comps"]:
+            yield finish_pipe(base, [], list(base["names"]), list(base["default_pref"]), rec["kind"], [ck])
+            for ck2 in all_cks:
+                if ck2 != ck:
+                    yield finish_pipe(base, [], list(base["names"]), list(base["default_pref"]), rec["kind"], [ck, ck2])
+
+
 def cases(rng, tier):
     base = base_factory_info()
+    for c in builtin_sweep(base):
+        yield c
     n = 700 if tier == "quick" else 12000
     for i in range(n):
         r = rng.random()
@@ -728,7 +763,9 @@ def stats(payload, ans):
         return t
     if tag == "pipe":
         t = ["pipe", "pipe-len:" + str(len(payload[3]))]
-        t.append("pipe:ok" if ans[0] == "ok" else "pipe:" + str(ans[1]))
+        t.append("pipe:ok-stages:" + str(len(ans) - 1) if ans[0] == "ok" else "pipe:" + str(ans[1]))
+        if ans[0] == "ok" and any(n in base_factory_info()["names"] for n in ans[1:]):
+            t.append("pipe-selects-builtin")
         if any(e[8][0] == "table" for e in payload[1][1]):
             t.append("pipe-builtin-compilers")
         return t
